@@ -72,9 +72,10 @@ def run(ctx):
     for cid, rng in ctx.cases([('s', i) for i in range(nsamp)]):
         mon.cid = cid
         empty = rng.random() < 0.06          # a file / sample without events still has channels, settings and limits
-        bign = int(rng.choice([65537, 100001])) if cid[1] % 30 == 7 else None      # tens of thousands of events (chunked / fast paths)
+        bign = int(rng.choice([65537, 140001, 300001])) if cid[1] % 30 == 7 else None      # tens of thousands of events (chunked / fast paths)
         if rng.random() < 0.8:
-            spec = zoo.int_spec(rng, n=bign or (0 if empty else int(rng.integers(8, 60))), d=int(rng.integers(2, 7)) if not bign else 3)
+            spec = zoo.int_spec(rng, n=bign or (0 if empty else int(rng.integers(8, 60))), d=int(rng.integers(2, 7)) if not bign else 3,
+                                res=int(rng.choice([1024, 1000, 10000])) if bign else None, all_log=bool(bign))     # big: log channels sharing one resolution
         else:
             spec = zoo.float_spec(rng, n=bign or (0 if empty else int(rng.integers(8, 40))), d=3 if bign else None)
             spec['pne'] = [str(rng.choice(['0,0', '4,1', '3,0'])) for _ in spec['widths']]
